@@ -24,7 +24,7 @@ RULE = ('per configuration (backend, backoff sequence incl. 0 and equal due time
         'message the queue knows is in flight or scheduled with a wake-up no later than the earliest due time; flush() '
         'returns without any timer or environment event and its messages are attempted before time advances; nothing '
         'outstanding at final quiescence.  Non-trivial = execution with a retry timer, a flush or a load.')
-ASSUMPTIONS = ['virtual clock; time.time() in slimta.queue is rebound to it', 'fake redis client for the redis configurations']
+ASSUMPTIONS = ['the virtual gevent loop is bound to the real one by replaying scenarios (default schedule, scripted outcomes) on the real loop with scaled real time and comparing the attempt sequences', 'virtual clock; time.time() in slimta.queue is rebound to it', 'fake redis client for the redis configurations']
 
 
 def BOUNDS(tier):
@@ -65,6 +65,8 @@ def configs(tier, seed):
     cfgs.append(dict(backend='redis', backoff='r10', n=1, prestored=2, prestored_due=10.0, keep_announcements=False, script=[E0], d=d, dd=2, menu=MENU))
     cfgs.append(dict(backend='cloud', cloud_mq=True, backoff='r10', n=1, prestored=1, script=[E0, F], d=d, dd=2, menu=MENU))
     cfgs.append(dict(backend='dict', backoff='r10', n=1, script=[E0, F], slow_ops=['get'], d=d, dd=2, menu=MENU))
+    nconf = 16 if tier == 'quick' else 32
+    cfgs += [{'mode': 'conformance', 'k': k, 'of': nconf, 'take': 1 if tier == 'quick' else 6} for k in range(nconf)]
     return cfgs
 
 
@@ -86,8 +88,28 @@ def signature(cfg, qw, kind):
             'pools': '%s/%s' % (cfg.get('store_pool'), cfg.get('relay_pool'))}
 
 
+def run_conformance(cfg, res):
+    """virtual loop vs REAL gevent loop (scaled real time) on the same scenario"""
+    from conformance.queue_real import scenarios, compare
+    sc = list(scenarios())
+    mine = sc[cfg['k']::cfg['of']][:cfg['take']]
+    for wcfg, data in mine:
+        err = compare(wcfg, data)
+        res.traces_validated += 1
+        res.evaluations += 2
+        res.count('real_loop_replays')
+        res.outcome(('conformance', tuple(data), err))
+        if err:
+            res.violation({'kind': 'virtual-loop-differs-from-real-loop'}, 'outcome choices %r: %s' % (data, err),
+                          {'cfg': {'conformance': True, 'wcfg': wcfg, 'data': data}, 'choices': []})
+    res.sample({'conformance': 'virtual loop vs real gevent loop', 'scenarios': [d for _, d in mine]})
+    return res.as_dict()
+
+
 def run_config(cfg, tier, seed):
     res = Result()
+    if cfg.get('mode') == 'conformance':
+        return run_conformance(cfg, res)
     wcfg = {k: v for k, v in cfg.items() if k not in ('d', 'dd')}
 
     def run(ch):
@@ -123,6 +145,10 @@ def vacuity(counters, tier):
 
 
 def replay(rep):
+    if rep['cfg'].get('conformance'):
+        from conformance.queue_real import compare
+        err = compare(rep['cfg']['wcfg'], rep['cfg']['data'])
+        return (True, err) if err else (False, 'virtual and real loop agree')
     ch = Chooser(rep['choices'])
     qw, obs = run_one(rep['cfg'], ch)
     viols = [v for v in qw.violations if v[0] in KINDS]
